@@ -80,6 +80,7 @@ class Trace(object):
     second = None
 
     def __init__(self, scn, world):
+        self.http_roots = {}
         scn = dict(scn)
         if scn.get('second'):
             scn['sources'] = copy.deepcopy(scn.get('sources', []))
@@ -467,6 +468,62 @@ def make_borrower(t, i, b, reader):
     return br
 
 
+class _SimHttpResponse(object):
+    def __init__(self, code, body, lastmod):
+        self.code = code
+        self._b = body
+        self._lm = lastmod
+
+    def getheader(self, name, default=None):
+        return self._lm if name == 'Last-Modified' and self._lm else default
+
+    def read(self, n=-1):
+        return self._b if n is None or n < 0 else self._b[:n]
+
+
+def sim_urlopen(t):
+    """The network of a world: requests of the real HttpReader are answered from the document roots of the world's
+    simulated servers; per file name the scenario may say refuse / 404 / 500 / cut body / no Last-Modified."""
+    def urlopen(reqobj, *a, **k):
+        w = t.world
+        url = reqobj.full_url
+        host = url.split('//', 1)[1].split('/', 1)[0].split(':')[0]
+        name = url.rsplit('/', 1)[-1]
+        d, spec = t.http_roots.get(host, (None, {}))
+        fault = spec.get('net', {}).get(name)
+        path = os.path.join(d, name) if d else None
+        data = core.read_bytes(path) if path and os.sep not in name and name not in ('', '.', '..') else None
+
+        def fire(kind):
+            w.fired['http:' + kind] = w.fired.get('http:' + kind, 0) + 1
+            w.event('http.open', host, name, 'fault:' + kind)
+        if data is None:
+            w.event('http.open', host, name, 'ok:404')
+            raise IOError('HTTP Error 404: Not Found')
+        if fault == 'refuse':
+            fire('refuse')
+            raise OSError(111, 'Connection refused [simulated]')
+        if fault == '404':
+            fire('404')
+            raise IOError('HTTP Error 404: Not Found')
+        if fault == '500':
+            fire('500')
+            return _SimHttpResponse(500, b'internal server error', None)
+        with core.unhooked():
+            mt = int(core.R.stat(path).st_mtime)
+        lm = core.R.strftime('%a, %d %b %Y %H:%M:%S GMT', core.R.gmtime(mt))
+        if fault == 'nolm':
+            fire('no-last-modified')
+            lm = None
+        if fault == 'cut':
+            fire('cut-body')
+            data = data[:len(data) // 2]
+        else:
+            w.event('http.open', host, name, 'ok:200')
+        return _SimHttpResponse(200, data, lm)
+    return urlopen
+
+
 def build_real_world(t, scn, root):
     """Materialise the scenario on the scratch filesystem and return real components behind taps."""
     import os
@@ -508,7 +565,13 @@ def build_real_world(t, scn, root):
                 with open(os.path.join(d, fname), 'w') as f:
                     f.write('\n'.join(parts))
                 os.utime(os.path.join(d, fname), (s.get('mtime', core.EPOCH0), s.get('mtime', core.EPOCH0)))
-            if s.get('zip'):
+            if s.get('http'):
+                # the directory is the document root of a simulated web server; the reader is the real HttpReader
+                from pysmi.reader.httpclient import HttpReader
+                host = 'src%d.example' % i
+                t.http_roots[host] = (d, s)
+                rd = HttpReader(host, 80, '/mibs/@mib@')
+            elif s.get('zip'):
                 import zipfile
                 from pysmi.reader.zipreader import ZipReader
                 zp = os.path.join(root, 'src%d.zip' % i)
@@ -604,6 +667,18 @@ def run_world(scn, root=None, writer=None, extra_setup=None):
         extra_setup(comp, t)
     opts = {k: v for k, v in scn.get('options', {}).items() if k in OPTION_NAMES}
     first = t
+    if t.http_roots:
+        import pysmi.reader.httpclient as hc
+        saved_urlopen = hc.urlopen
+        hc.urlopen = sim_urlopen(t)
+        try:
+            with core.partitioned_network():
+                with w:
+                    _one_call(t, comp, w, 0, scn['requested'], opts)
+        finally:
+            hc.urlopen = saved_urlopen
+        get_parser()
+        return first
     with w:
         _one_call(t, comp, w, 0, scn['requested'], opts)
         sec = scn.get('second')
@@ -902,6 +977,14 @@ def gen_world(rng, tier, focus='C07'):
             s_['strict'] = rng.random() < 0.5
             if rng.random() < 0.2:
                 s_['index'] = True
+            elif rng.random() < 0.2:
+                s_['http'] = True            # served by a simulated web server through the real HttpReader
+                net = {}
+                for nm_ in sorted(s_['holds']):
+                    if rng.random() < 0.25:
+                        net[nm_] = rng.choice(['refuse', '404', '500', 'cut', 'nolm'])
+                if net:
+                    s_['net'] = net
             elif rng.random() < 0.3:
                 s_['zip'] = rng.choice([True, 'sub'])
                 if s_.get('mtime', core.EPOCH0) < 400000000:
